@@ -16,6 +16,7 @@ package transport
 
 import (
 	"context"
+	"io"
 	"reflect"
 	"sync"
 
@@ -42,8 +43,20 @@ func NewMessageTransporter(sendCh chan msg.Message) MessageTransporter {
 	}
 }
 
+// NewMessageTransporterWithDone is like NewMessageTransporter, but Send gives up with an error
+// once doneCh is closed (nobody drains sendCh any more) instead of blocking on a full channel.
+func NewMessageTransporterWithDone(sendCh chan msg.Message, doneCh <-chan struct{}) MessageTransporter {
+	return &transporterImpl{
+		sendCh:   sendCh,
+		doneCh:   doneCh,
+		registry: make(map[string]map[string]chan msg.Message),
+	}
+}
+
 type transporterImpl struct {
 	sendCh chan msg.Message
+	// doneCh is optional, closed when the consumer of sendCh has exited.
+	doneCh <-chan struct{}
 
 	// First key is message type and second key is lane key.
 	// Dispatch will dispatch message to related channel by its message type
@@ -53,9 +66,23 @@ type transporterImpl struct {
 }
 
 func (impl *transporterImpl) Send(m msg.Message) error {
-	return errors.PanicToError(func() {
-		impl.sendCh <- m
-	})
+	if impl.doneCh == nil {
+		return errors.PanicToError(func() {
+			impl.sendCh <- m
+		})
+	}
+
+	var sendErr error
+	if err := errors.PanicToError(func() {
+		select {
+		case <-impl.doneCh:
+			sendErr = io.EOF
+		case impl.sendCh <- m:
+		}
+	}); err != nil {
+		return err
+	}
+	return sendErr
 }
 
 func (impl *transporterImpl) Do(ctx context.Context, req msg.Message, laneKey, recvMsgType string) (msg.Message, error) {
